@@ -298,3 +298,73 @@ theorem entryAndModify_refines {f : Forest} {e nm : Nat} {N A S : List HTree}
 
 end Fmap
 end XotModel
+
+namespace XotModel
+namespace Fmap
+open HTree
+open Forest (MapKind entryKey mapChildren MapEntry)
+
+theorem omContainsKey_modify (m : OMap Payload) (key : Nat) (g : Payload → Payload) (k' : Nat) :
+    omContainsKey (omModify m key g) k' = omContainsKey m k' := by
+  have h1 := omGet_none_iff (omModify m key g) k'
+  have h2 := omGet_none_iff m k'
+  rw [omKeys_modify] at h1
+  unfold omContainsKey
+  cases ha : omGet (omModify m key g) k' with
+  | none =>
+    have := h2.mpr (h1.mp ha)
+    rw [this]
+  | some x =>
+    cases hb : omGet m k' with
+    | none => exact absurd (h1.mpr (h2.mp hb)) (by rw [ha]; simp)
+    | some y => rfl
+
+/-- `entry(key).and_modify(g).or_insert(default)`: in terms of the views. -/
+theorem entryAndModifyOrInsert_spec {f : Forest} {e nm : Nat} {N A S : List HTree}
+    (h : MInv f e nm N A S) (k : MapKind) (default : Value) (g : Value → Value)
+    (hm : k.matches default = true) (hg : ∀ v, k.matches v = true → k.matches (g v) = true) :
+    (∃ N' A', MInv (f.entryAndModifyOrInsert k e default g).1 e nm N' A' S) ∧
+    (f.entryAndModifyOrInsert k e default g).2 = .ok ∧
+    abs k (f.entryAndModifyOrInsert k e default g).1 e =
+      (if omContainsKey (abs k f e) (entryKey default)
+       then omModify (abs k f e) (entryKey default)
+              (fun p => payloadOf (g (mkEntry k (entryKey default) p)))
+       else omInsert (abs k f e) (entryKey default) (payloadOf default)) ∧
+    ∀ k', k' ≠ k → abs k' (f.entryAndModifyOrInsert k e default g).1 e = abs k' f e := by
+  obtain ⟨hr, hok, hent⟩ := entryAndModify_refines h k (entryKey default) g hg
+  unfold Forest.entryAndModifyOrInsert
+  cases hres : f.entryAndModify k e (entryKey default) g with
+  | mk f1 rest =>
+    cases rest with
+    | mk r ent =>
+      rw [hres] at hr hok hent
+      simp only at hr hok hent
+      subst hok
+      cases hc : omContainsKey (abs k f e) (entryKey default) with
+      | true =>
+        rw [hc] at hent
+        simp only [if_true] at hent
+        subst hent
+        simp only [if_true]
+        rw [occGetMut_eq, hr.abs_same, omContainsKey_modify, hc]
+        exact ⟨hr.minv, rfl, rfl, fun k' hk' => hr.abs_other h hk'⟩
+      | false =>
+        rw [hc] at hent
+        simp only [Bool.false_eq_true, if_false] at hent
+        subst hent
+        simp only [Bool.false_eq_true, if_false]
+        obtain ⟨N1, A1, h1⟩ := hr.minv
+        obtain ⟨hr2, hok2⟩ := vacInsert_refines h1 k default hm
+        have hsame : abs k f1 e = abs k f e := by
+          rw [hr.abs_same, omModify_of_get_none]
+          unfold omContainsKey at hc
+          cases hg' : omGet (abs k f e) (entryKey default) with
+          | none => rfl
+          | some _ => rw [hg'] at hc; cases hc
+        refine ⟨hr2.minv, hok2, ?_, ?_⟩
+        · rw [hr2.abs_same, hsame]
+        · intro k' hk'
+          rw [hr2.abs_other h1 hk', hr.abs_other h hk']
+
+end Fmap
+end XotModel
